@@ -334,6 +334,9 @@ func (c *Ctx) writeReplay(v *Violation) string {
 }
 
 func (c *Ctx) writeEvidence(nviol int) {
+	if os.Getenv("VERIF_NO_EVIDENCE") != "" {
+		return
+	}
 	cov := map[string]interface{}{}
 	for k, v := range c.Extra {
 		cov[k] = v
